@@ -3,6 +3,8 @@ package props
 import (
 	"fmt"
 	"go/token"
+	"sort"
+	"strings"
 
 	"golang.org/x/tools/go/ssa"
 
@@ -60,15 +62,76 @@ func runC06(c *eng.Ctx) {
 		}
 	}
 	nRS := 0
+	// every site that builds a codec (encoder, rebuilder, degraded read) must build the same code: same shard counts and the
+	// same options (an option such as WithCauchyMatrix changes the coding matrix, i.e. the parity bytes)
+	optsOf := func(call *ssa.Call) string {
+		if len(call.Call.Args) < 3 {
+			return ""
+		}
+		var names []string
+		for _, o := range eng.VarargValues(call.Call.Args[2]) {
+			if oc, ok := eng.Unwrap(o).(*ssa.Call); ok {
+				names = append(names, eng.Callee(oc)+"("+argConsts(oc)+")")
+			} else {
+				names = append(names, o.String())
+			}
+		}
+		sort.Strings(names)
+		return strings.Join(names, ",")
+	}
+	optCount := map[string]int{}
+	for _, fn := range P.AllSrcFuncs() {
+		for _, call := range eng.Find(fn, eng.PlainCallTo("reedsolomon.New")) {
+			optCount[optsOf(call.(*ssa.Call))]++
+		}
+	}
+	majority, best := "", -1
+	for k, n := range optCount {
+		if n > best || (n == best && k < majority) {
+			majority, best = k, n
+		}
+	}
 	for _, fn := range P.AllSrcFuncs() {
 		for _, call := range eng.Find(fn, eng.PlainCallTo("reedsolomon.New")) {
 			nRS++
+			o := optsOf(call.(*ssa.Call))
+			c.Ob("SIB-codec", fmt.Sprintf("reedsolomon.New options in %s#%d", eng.FuncName(fn), nRS), o == majority, call.Pos(),
+				fmt.Sprintf("the codec is built with options [%s]; the other sites use [%s] — encoder, rebuilder and degraded read must use the same coding matrix", o, majority))
 			a, ok1 := eng.ConstInt(call.(*ssa.Call).Call.Args[0])
 			b, ok2 := eng.ConstInt(call.(*ssa.Call).Call.Args[1])
 			c.Ob("CONST-blocksizes", fmt.Sprintf("reedsolomon.New in %s#%d", eng.FuncName(fn), nRS), ok1 && ok2 && a == dsc && b == psc, call.Pos(), fmt.Sprintf("codec built with (%d,%d), shards are (%d,%d)", a, b, dsc, psc))
 		}
 	}
 	c.Expect("CONST-blocksizes", 8)
+
+	// ---------------------------------------------------------------- (1b) size of the decoded data file
+	// The .ecx is sorted by key, not by position: the size of the data file to decode is the largest end position of any
+	// live entry, so the running value is replaced only by a larger one, and by the entry's end (position + full record size).
+	if outer := c.NeedFunc("weed/storage/erasure_coding", "FindDatFileSize"); outer != nil {
+		isDatSize := func(v ssa.Value) bool {
+			fv, ok := v.(*ssa.FreeVar)
+			return ok && fv.Name() == "datSize"
+		}
+		stDat := func(in ssa.Instruction) bool { st, ok := in.(*ssa.Store); return ok && isDatSize(st.Addr) }
+		visit := closureWith(outer, stDat)
+		if visit == nil {
+			c.Undecided("MAX-datsize", eng.FuncName(outer), outer.Pos(), "the .ecx visitor updating datSize was not found")
+		} else {
+			c.Touch(visit)
+			for i, in := range eng.Find(visit, stDat) {
+				st := in.(*ssa.Store)
+				val := st.Val
+				larger := eng.Cmp(func(v ssa.Value) bool { u, ok := v.(*ssa.UnOp); return ok && u.Op == token.MUL && isDatSize(u.X) }, func(v ssa.Value) bool { return v == val }, token.LSS)
+				c.Guard("MAX-datsize", fmt.Sprintf("only-larger#%d", i), visit, eng.Entry(visit), []ssa.Instruction{in}, eng.PassEdges(visit, larger),
+					"the size computed so far is replaced only by a larger end position (entries come in key order, not in position order)")
+				c.Ob("MAX-datsize", fmt.Sprintf("%s end-of-record#%d", eng.FuncName(visit), i), eng.MentionsCall(val, "needle.GetActualSize") && eng.MentionsCall(val, "types.Offset).ToActualOffset"), st.Pos(),
+					"the candidate is the entry's position plus its full record size")
+			}
+			live := eng.BoolCall(false, "types.Size).IsDeleted")
+			c.Guard("MAX-datsize", "live-entries-only", visit, eng.Entry(visit), eng.Find(visit, stDat), eng.PassEdges(visit, live), "deleted entries (whose position field is a tombstone) do not contribute")
+		}
+		c.Expect("MAX-datsize", 3)
+	}
 
 	// ---------------------------------------------------------------- (2) SIB-rowboundary
 	// site -> does a file of exactly k*DataShardsCount*large bytes count its last row as a large row?
@@ -326,4 +389,16 @@ func runC06(c *eng.Ctx) {
 	errAll(c, "ERR-ec-paths", "weed/storage/erasure_coding", "an error of a callee on the EC encode / rebuild path reaches the caller", "WriteEcFiles", "RebuildEcFiles", "generateEcFiles", "encodeDatFile", "WriteSortedFileFromIdx")
 	errAll(c, "ERR-ec-paths", "weed/storage", "an error of a callee on the EC read path reaches the caller", "(*Store).ReadEcShardNeedle", "(*Store).recoverOneRemoteEcShardInterval")
 	c.Expect("ERR-ec-paths", 18)
+}
+
+func argConsts(call *ssa.Call) string {
+	var out []string
+	for _, a := range call.Call.Args {
+		if k, ok := a.(*ssa.Const); ok {
+			out = append(out, k.String())
+		} else {
+			out = append(out, "?")
+		}
+	}
+	return strings.Join(out, ",")
 }
